@@ -44,6 +44,12 @@ func Collect(root string, exts map[string]bool, maxSize int64, skipDir func(name
 			if n == ".git" || (skipDir != nil && p != root && skipDir(n)) {
 				return filepath.SkipDir
 			}
+			if p != root {
+				// a nested checkout / git worktree (scratch copy of the tree) is not part of the corpus
+				if _, err := os.Lstat(filepath.Join(p, ".git")); err == nil {
+					return filepath.SkipDir
+				}
+			}
 			return nil
 		}
 		if !exts[filepath.Ext(p)] {
